@@ -74,7 +74,8 @@ def r18_2(chk):
     defs = {k: [norm(v) for v in vs if v is not None] for k, vs in local_defs(fn).items()}
     for nm, want in (('uTM', 'inc*self.uTM'), ('Nxxtop', 'inc*self.Nxxtop'), ('thetaTrad', 'inc*self.thetaTrad'),
                      ('P', 'self.P+inc*self.P_inc'), ('T', 'self.T+inc*self.T_inc')):
-        chk.ob('R18.2', defs.get(nm) == [want], CONECYL, fname, 'load factor scaling of ' + nm, expected=want, got=defs.get(nm),
+        nodes = [v for v in local_defs(fn).get(nm, []) if v is not None]
+        chk.ob('R18.2', len(nodes) == 1 and pyrules.same_expr(nodes[0], want), CONECYL, fname, 'load factor scaling of ' + nm, expected=want, got=defs.get(nm),
                sample='%s = %s' % (nm, want))
     # point forces: constant without inc, incremental with inc exactly once
     loops = {}
@@ -160,7 +161,8 @@ def r18_3(chk):
         # a column of k0uk (or kuk) with this dof multiplied by the (inc-scaled) prescribed value
         cols = [k for k, vs in defs.items() if any(re.match(r'^(self\.k0uk|kuk)\[:,%d\]\.ravel\(\)$' % dof, v) for v in vs)]
         vname = val.replace('self.', '')
-        ok = any(t == 'fext+=-%s*%s' % (vname, c) for t in txt for c in cols) and defs.get(vname) == ['inc*%s' % val]
+        vnodes = [v for v in local_defs(fn).get(vname, []) if v is not None]
+        ok = any(t == 'fext+=-%s*%s' % (vname, c) for t in txt for c in cols) and len(vnodes) == 1 and pyrules.same_expr(vnodes[0], 'inc*%s' % val)
         chk.ob('R18.3', ok, CONECYL, 'ConeCyl.calc_fext', 'right-hand side term of prescribed amplitude %d (%s)' % (dof, val),
                expected='fext += -inc*%s*k0uk[:, %d] where the amplitude is prescribed (%s)' % (val, dof, cond), got=[t for t in txt if 'kuk' in t],
                detail='' if ok else '_rebuild prescribes amplitude %d to %s (under %s) but calc_fext never moves k0uk[:, %d]*%s to the right-hand side: the reduced system ignores the prescribed value' % (dof, val, cond, dof, val),
